@@ -221,6 +221,25 @@ def matStep (st : DrvState) (ws : List String) : Option (DrvState × String) :=
       match Gauss.solve O q sys with
       | none => some (st, "ok st=FAILURE")
       | some xs => some (st, "ok st=OK x=" ++ String.join (xs.map fun x => Bytes.toHex x ++ ";"))
+  | ["solves", p, q, len, ents] => do
+      -- tall systems given sparsely: only the listed rows are non-zero; all others are zero rows with a NULL right-hand side
+      let p ← n? p; let q ← n? q; let len ← n? len
+      if p == 0 || q == 0 then some (st, "bad-op") else
+      let O := Bytes.ops2 len
+      let listed : List (Nat × Gauss.Row Bytes) := ((ents.splitOn ";").filter (· != "")).filterMap fun e =>
+        match e.splitOn ":" with
+        | [r, bits, rhs] => match r.toNat? with
+          | some ri => some (ri, (((bits.toList.map (· == '1')) ++ List.replicate (q - bits.length) false).take q,
+                                  if rhs == "N" then O.zero else hexBytes rhs))
+          | none => none
+        | _ => none
+      let tab : Array (Option (Gauss.Row Bytes)) := listed.foldl (fun (a : Array (Option (Gauss.Row Bytes))) (e : Nat × Gauss.Row Bytes) =>
+        if e.1 < a.size then a.set! e.1 (some e.2) else a) (Array.replicate p none)
+      let zero : Gauss.Row Bytes := (List.replicate q false, O.zero)
+      let sys : List (Gauss.Row Bytes) := tab.toList.map fun o => o.getD zero
+      match Gauss.solve O q sys with
+      | none => some (st, "ok st=FAILURE")
+      | some xs => some (st, "ok st=OK x=" ++ String.join (xs.map fun x => Bytes.toHex x ++ ";"))
   | _ => none
 
 def nat? (s : String) : Option Nat := s.toNat?
